@@ -1,0 +1,20 @@
+//go:build verif
+
+package types
+
+// Contracts for the deductive verifier in /verif (govc). Comment-only; compiled only with -tags verif.
+
+//@ spec func hgte(an int, ah int, bn int, bh int) bool = an > bn || (an == bn && ah >= bh)
+
+//@ contract (Timeout).heightElapsed
+//@   ensures result == (!(t.Height.RevisionNumber == 0 && t.Height.RevisionHeight == 0) && hgte(height.RevisionNumber, height.RevisionHeight, t.Height.RevisionNumber, t.Height.RevisionHeight))
+
+//@ contract (Timeout).timestampElapsed
+//@   ensures result == (t.Timestamp != 0 && timestamp >= t.Timestamp)
+
+//@ contract (Timeout).Elapsed
+//@   ensures def: result == ((!(t.Height.RevisionNumber == 0 && t.Height.RevisionHeight == 0) && hgte(height.RevisionNumber, height.RevisionHeight, t.Height.RevisionNumber, t.Height.RevisionHeight)) || (t.Timestamp != 0 && timestamp >= t.Timestamp))
+//@   ensures zero_never: t.Height.RevisionNumber == 0 && t.Height.RevisionHeight == 0 && t.Timestamp == 0 ==> !result
+
+//@ contract (Timeout).IsValid
+//@   ensures result == !(t.Height.RevisionNumber == 0 && t.Height.RevisionHeight == 0 && t.Timestamp == 0)
